@@ -179,6 +179,16 @@ func TestSharedConn(t *testing.T) {
 				}
 				return false
 			}
+			// one step of closer k, logged as the action that its yield point stands for
+			closerStep := func(k string) bool {
+				site := s.at(k)
+				if scEvent[site] == "" || (site == "close" && inOnce(kh[k])) {
+					return false
+				}
+				s.step(k)
+				logEv(scEvent[site], map[string]any{"p": k})
+				return true
+			}
 			for _, lab := range path {
 				name, args := label(lab)
 				st["steps"]++
@@ -203,13 +213,7 @@ func TestSharedConn(t *testing.T) {
 						ok = true
 					}
 				case "CloseEnter", "Cancel", "Unref", "UClose":
-					k := args[0]
-					site := s.at(k)
-					if scEvent[site] != "" && site == scSite[name] && !(site == "close" && inOnce(kh[k])) {
-						s.step(k)
-						logEv(scEvent[site], map[string]any{"p": k})
-						ok = true
-					}
+					ok = s.at(args[0]) == scSite[name] && closerStep(args[0])
 				case "RStart":
 					r, h := args[0], args[1]
 					if s.at(r) == "absent" && hidx[h] < len(handles) {
@@ -283,16 +287,15 @@ func TestSharedConn(t *testing.T) {
 			for round := 0; round < 20; round++ {
 				moved := false
 				for _, k := range job.Closers {
-					if a := s.at(k); a != "absent" && a != "done" && !(a == "close" && inOnce(kh[k])) {
-						if s.step(k) {
-							moved = true
-						}
+					if closerStep(k) {
+						moved = true
 					}
 				}
 				if !moved {
 					break
 				}
 			}
+			logEv("End", nil)
 			ice.VerifUDPMuxSetYield(nil)
 			for _, n := range s.names() {
 				s.release(n)
